@@ -16,6 +16,8 @@ use tokio::net::TcpStream;
 
 pub(crate) struct TcpForwarder {
     context: Arc<core::Context>,
+    /// Whether the private-network policy for client-chosen destinations applies
+    restrict_destinations: bool,
 }
 
 struct StreamRx {
@@ -36,7 +38,19 @@ struct StreamTx {
 
 impl TcpForwarder {
     pub fn new(context: Arc<core::Context>) -> Self {
-        Self { context }
+        Self {
+            context,
+            restrict_destinations: true,
+        }
+    }
+
+    /// A forwarder for destinations taken from the endpoint's own configuration
+    /// (not from a client), which the private-network policy does not concern
+    pub fn new_for_configured_destination(context: Arc<core::Context>) -> Self {
+        Self {
+            context,
+            restrict_destinations: false,
+        }
     }
 
     pub(crate) fn pipe_from_stream(
@@ -70,7 +84,8 @@ impl TcpConnector for TcpForwarder {
         let peer = match meta.destination {
             TcpDestination::Address(peer) => {
                 let peer_ip = peer.ip();
-                if !self.context.settings.allow_private_network_connections
+                if self.restrict_destinations
+                    && !self.context.settings.allow_private_network_connections
                     && !net_utils::is_global_ip(&peer_ip)
                 {
                     if peer_ip.is_loopback() {
@@ -103,6 +118,7 @@ impl TcpConnector for TcpForwarder {
 
                     if net_utils::is_global_ip(&ip)
                         || self.context.settings.allow_private_network_connections
+                        || !self.restrict_destinations
                     {
                         status = Some(SelectionStatus::Suitable(a));
                         break;
